@@ -72,17 +72,11 @@ vec_data!(&'a str, cast_ref_str, Str, NullableStr);
 pub enum DataSection { Bitvec(Vec<u8>) }
 pub struct Codec { pub ops: Vec<CodecOp> }
 impl Codec { pub fn ops(&self) -> &[CodecOp] { &self.ops } }
-// compression back ends and packed strings: not exercised by these harnesses (stand-ins that must not be reached)
-pub mod lz4 {
-    pub struct Decoder;
-    pub fn decoder(_: &[u8]) -> Decoder { Decoder }
-    pub fn decode<T>(_: &mut Decoder, _: &mut [T]) { panic!("lz4 stand-in reached") }
-}
+// LZ4 is the repository's own module over the lz4_flex crate (#[path] include); pco is a stand-in that must not be reached
+#[path = "@REPO@/src/mem_store/lz4.rs"]
+pub mod lz4;
 pub fn simple_decompress<T>(_: &[u8]) -> Result<Vec<T>, ()> { panic!("pco stand-in reached") }
 pub fn vec_f64_to_vec_of64(v: Vec<f64>) -> Vec<of64> { v.into_iter().map(OrderedFloat).collect() }
-pub struct StringPackerIterator<'a>(pub std::marker::PhantomData<&'a ()>);
-impl<'a> StringPackerIterator<'a> { pub unsafe fn from_slice(_: &'a [u8]) -> Self { panic!("stringpack stand-in reached") } }
-impl<'a> Iterator for StringPackerIterator<'a> { type Item = &'a str; fn next(&mut self) -> Option<&'a str> { None } }
 include!("decode.rs");
 
 fn bit(present: &[u8], i: usize) -> bool { let slot = i >> 3; slot < present.len() && present[slot] & (1 << (i as u8 & 7)) > 0 }
@@ -142,6 +136,54 @@ fn check_ints(nullable: bool, offset: i64, delta: bool, stored: [u8; N], present
     None
 }
 
+// narrow integer column with a u16 payload whose first section was LZ4-compressed (Column::lz4_or_pco_encode -> with_lz4)
+fn check_lz4_ints(nullable: bool, offset: i64, stored: [u16; N], present_byte: u8) -> Option<String> {
+    let null_map = if nullable { Some(vec![present_byte]) } else { None };
+    let base = narrow_int_codec(&null_map, offset, false, EncodingType::U16);
+    let codec = with_lz4_ops(&base, EncodingType::U16, N);
+    let describe = |what: &str, i: usize| Some(format!("{}: integer column stored as LZ4-compressed u16 values {:?} with offset {}, presence byte {}, row {}; codec {:?}", what, stored, offset, if nullable { format!("{:#010b}", present_byte) } else { "none".to_string() }, i, codec));
+    let payload: Vec<u8> = lz4::encode(&stored[..]);
+    let bitmap: Vec<u8> = vec![present_byte];
+    let sections: Vec<&dyn Data> = vec![&payload, &bitmap];
+    let out = match std::panic::catch_unwind(std::panic::AssertUnwindSafe(|| decode(&Codec { ops: codec.clone() }, &sections[..if nullable { 2 } else { 1 }]))) {
+        Ok(o) => o,
+        Err(_) => return describe("compressed-section-decodes: decode panics on a compressed integer section", 0),
+    };
+    if out.len() != N { return describe("same-length: decoding keeps the number of rows", 0); }
+    let ints = out.cast_ref_i64();
+    for i in 0..N {
+        if nullable && !bit(&[present_byte], i) {
+            if !(out.get_type().is_nullable() && !bit(out.cast_ref_null_map(), i)) { return describe("null-stays-null: a row stored as NULL is decoded as a value", i); }
+        } else {
+            if out.get_type().is_nullable() && !bit(out.cast_ref_null_map(), i) { return describe("value-stays-present: a row stored with a value is decoded as NULL", i); }
+            if ints[i] != stored[i] as i64 + offset { return describe("stored-plus-offset: a present row does not decode to stored + offset", i); }
+        }
+    }
+    None
+}
+
+// packed (non-dictionary) string column, plain and with its first section LZ4-compressed
+fn check_packed_strings(compressed: bool, words: [&str; N]) -> Option<String> {
+    let packed: Vec<u8> = PackedStrings::from_iterator(words.iter().copied()).into_vec();
+    let base = string_pack_codec();
+    let (codec, section0) = if compressed { (with_lz4_ops(&base, EncodingType::U8, packed.len()), lz4::encode(&packed[..])) } else { (base, packed) };
+    let describe = |what: &str, i: usize| Some(format!("{}: packed string column {:?}, {}, row {}; codec {:?}", what, words, if compressed { "first section LZ4-compressed" } else { "uncompressed" }, i, codec));
+    let sections: Vec<&dyn Data> = vec![&section0];
+    let decoded: Result<Vec<String>, ()> = std::panic::catch_unwind(std::panic::AssertUnwindSafe(|| {
+        let out = decode(&Codec { ops: codec.clone() }, &sections[..]);
+        out.cast_ref_str().iter().map(|s| s.to_string()).collect()
+    })).map_err(|_| ());
+    let label = if compressed { "compressed-packed-strings-decode" } else { "packed-strings-decode" };
+    match decoded {
+        Err(_) => describe(&format!("{}: decode panics on a packed string column", label), 0),
+        Ok(strs) => {
+            if strs.len() != N { return describe(&format!("{}: decoding does not keep the number of rows", label), 0); }
+            for i in 0..N { if strs[i] != words[i] { return describe(&format!("{}: a row does not decode to the string that was stored", label), i); } }
+            None
+        }
+    }
+}
+
 pub fn search(_seed: u64) -> Option<String> {
     for nullable in [false, true] {
         for present_byte in 0u8..8 {
@@ -155,7 +197,20 @@ pub fn search(_seed: u64) -> Option<String> {
                     if let Some(w) = check_ints(nullable, offset, delta, [a, b, c], present_byte) { return Some(w); }
                 } } }
             } }
+            let pool16 = [0u16, 1, 300, 65535];
+            for offset in [0i64, -3, 1000] {
+                for &a in &pool16 { for &b in &pool16 { for &c in &pool16 {
+                    if let Some(w) = check_lz4_ints(nullable, offset, [a, b, c], present_byte) { return Some(w); }
+                } } }
+            }
         }
+    }
+    let long = "x".repeat(300);
+    let words = ["", "a", "bc", "unique-string-number-00000001-padding-padding", long.as_str()];
+    for compressed in [false, true] {
+        for a in 0..words.len() { for b in 0..words.len() { for c in 0..words.len() {
+            if let Some(w) = check_packed_strings(compressed, [words[a], words[b], words[c]]) { return Some(w); }
+        } } }
     }
     None
 }
